@@ -169,9 +169,16 @@ func (s *Sim) logf(kind string, a, b int64, str string) {
 // called by the token holder or the world only.
 func Log(kind string, a, b int64, str string) {
 	if s := cur.Load(); s != nil {
+		raceOff()
 		s.logf(kind, a, b, str)
+		raceOn()
 	}
 }
+
+// RaceOff / RaceOn let the simulated disk and the harness hide their own bookkeeping
+// locks from the race detector (no-ops outside the -race build).
+func RaceOff() { raceOff() }
+func RaceOn()  { raceOn() }
 
 // Digest returns the event-log digest so far.
 func (s *Sim) Digest() uint64 { return s.digest }
@@ -257,6 +264,8 @@ func Yield(site int) {
 	if s == nil {
 		return
 	}
+	raceOff()
+	defer raceOn()
 	g := getg()
 	t := s.current.Load()
 	if t != nil && t.g == g {
@@ -349,6 +358,8 @@ func Go(site int, f func()) {
 		go f()
 		return
 	}
+	raceOff()
+	defer raceOn()
 	node := 0
 	name := "go"
 	if p := s.self(); p != nil {
@@ -363,10 +374,13 @@ func Go(site int, f func()) {
 }
 
 func (s *Sim) runTask(t *Task, f func()) {
+	raceOff()
 	s.bind(t)
 	defer s.endTask(t)
 	s.park(t)
+	raceOn()
 	f()
+	raceOff()
 	t.Finished = true
 }
 
@@ -418,6 +432,7 @@ func AfterFunc(d time.Duration, f func()) *time.Timer {
 
 // loop is the scheduler goroutine.
 func (s *Sim) loop() {
+	raceOff()
 	defer close(s.schedDn)
 	var ready []*Task
 	for {
@@ -501,6 +516,8 @@ func TaskDead() bool {
 	if s == nil {
 		return false
 	}
+	raceOff()
+	defer raceOn()
 	t := s.self()
 	return t != nil && !t.low && t.dead()
 }
@@ -511,6 +528,8 @@ func CurrentNode() int {
 	if s == nil {
 		return 0
 	}
+	raceOff()
+	defer raceOn()
 	if t := s.self(); t != nil {
 		return t.Node
 	}
@@ -630,11 +649,15 @@ func Run(t *testing.T, tape *Tape, cfg Config, root func(w *World)) (res RunResu
 // Settle parks the world until no other task is ready at the current instant
 // (all other tasks are blocked or finished). Simulated time does not advance.
 func (w *World) Settle() {
+	raceOff()
 	w.S.park(w.task)
+	raceOn()
 }
 
 // Sleep advances simulated time by d while the other tasks run, then settles.
 func (w *World) Sleep(d time.Duration) {
+	raceOff()
+	defer raceOn()
 	s := w.S
 	if s.current.Load() == w.task {
 		s.current.Store(nil)
@@ -649,6 +672,8 @@ func (w *World) Sleep(d time.Duration) {
 
 // Spawn starts f as a task of the given node. It does not run until the world yields.
 func (w *World) Spawn(node int, name string, f func()) *Task {
+	raceOff()
+	defer raceOn()
 	s := w.S
 	t := s.newTask(name, node, false)
 	s.logf("spawn", int64(t.ID), int64(node), name)
